@@ -49,6 +49,10 @@ def decide(pid, props, tier, seed, run_unit, known):
         if kani:
             import kani_run
             extra.append(kani_run.run_kani(pid, kani, scratch_root, tier))
+        # bounded stand-ins for functions outside the verifier's reach (labelled bounded, never counted as proved)
+        if P.get("bounded"):
+            import bounded_run
+            extra.append(bounded_run.run_bounded(pid, P["bounded"], scratch_root, tier))
         # skeleton aspects (L2)
         for a in P.get("aspects", []):
             import skel_run
@@ -78,6 +82,14 @@ def finish(pid, P, props, tier, seed, results, known, t0, warnings, scratch_root
         if new_fns and r.get("failures"):
             undecided.append("%s: the source now calls function(s) without a contract (%s); %d obligation(s) could not be decided" % (r["unit"], "; ".join(new_fns), len(r["failures"])))
             r = dict(r, failures=[])
+        # skeletons of helper functions that are not under contract: obligations failing INSIDE them are violations
+        # (an event whose precondition is false); obligations of their callers cannot be decided
+        if r.get("auto_skeletons") and r.get("failures"):
+            inside = [f for f in r["failures"] if str(f.get("function") or "").startswith("auto:")]
+            outside = [f for f in r["failures"] if f not in inside]
+            if outside:
+                undecided.append("%s: the source now calls helper function(s) that are not under contract (%s); %d caller obligation(s) could not be decided" % (r["unit"], ", ".join(r["auto_skeletons"]), len(outside)))
+            r = dict(r, failures=inside)
         for f in r.get("failures", []):
             ob_id = "%s::%s" % (r["unit"], f["label"])
             if owned_elsewhere(props, pid, ob_id):
@@ -147,6 +159,7 @@ def finish(pid, P, props, tier, seed, results, known, t0, warnings, scratch_root
             "undecided": undecided,
             "warnings": warnings,
             "not_decided": P.get("not_decided", []),
+            "bounded_standins": [b for r in results if r["unit"] == "B-bounded" for b in (r.get("bounded") or [])],
         },
         "assumptions": P.get("assumptions", []) + ["see coverage.trusted_base for the mechanically collected list of assumed specifications and stubs"],
         "wall_s": round(wall, 2),
@@ -183,6 +196,28 @@ def finish(pid, P, props, tier, seed, results, known, t0, warnings, scratch_root
             print("  failed obligation %s at %s: %s" % (v["obligation"], v.get("site"), v["message"]))
         print("VIOLATION property=%s replay=%s%s" % (pid, rp, suffix))
         return 1
+    if undecided and os.environ.get("VERIF_NO_WITNESS") != "1":
+        # the verifier could not decide (lost anchor, unsupported construct, ...): look for a concrete failing input on
+        # the real code with the executable-oracle tests of the undecided units. A failing input is a violation with a
+        # witness; no failing input leaves the outcome UNDECIDED.
+        try:
+            import witness as W
+            und_units = sorted(set(u.split(":", 1)[0] for u in undecided))
+            w = W.search(pid, [{"unit": u} for u in und_units], seed, tier)
+        except Exception:
+            w = None
+        if w:
+            rdir = os.environ.get("VERIF_REPLAY_DIR") or os.path.join(ROOT, "replay")
+            os.makedirs(rdir, exist_ok=True)
+            rp = os.path.join(rdir, "%s-%d.json" % (pid, int(time.time())))
+            ob = "%s::undecided-by-verifier::witness[%s]" % (und_units[0] if und_units else "?", w.get("test"))
+            with open(rp, "w") as f:
+                json.dump({"property": pid, "tier": tier, "failed_obligations": [{"obligation": ob, "message": "verifier undecided (%s); a concrete failing input was found on the real code" % "; ".join(undecided)[:600]}],
+                           "witness": w, "units": und_units, "how_to_replay": w.get("cmd")}, f, indent=1)
+            print("  verifier undecided (%s)" % "; ".join(undecided)[:300])
+            print("  concrete failing input found by %s: %s" % (w.get("test"), (w.get("failing_input") or "")[:300].replace("\n", " ")))
+            print("VIOLATION property=%s replay=%s" % (pid, rp))
+            return 1
     if undecided:
         for u in undecided[:10]:
             print("UNDECIDED property=%s reason=%s" % (pid, u[:500]))
